@@ -20,6 +20,10 @@ OWNER = {"src/vclock.rs": "C10", "src/dot.rs": "C10", "src/gcounter.rs": "C11", 
 SECOND = {"src/map.rs": "C17", "src/orswot.rs": "C18", "src/vclock.rs": "C16", "src/list.rs": "C13", "src/mvreg.rs": "C18",
           "src/lwwreg.rs": "C16", "src/merkle_reg.rs": "C16", "src/ctx.rs": "C04", "src/gcounter.rs": "C18", "src/pncounter.rs": "C18"}
 
+OPS2 = [(r"\bself\.", "other."), (r"\bother\.", "self."), (r"\b0\b", "1"), (r"\b1\b", "0"), (r"\)\?;", ").ok();"), 
+        (r"\bour_entry\b", "entry"), (r"\bentry\b", "our_entry"), (r"&mut ", "&mut *&mut "), (r"\.glb\(", ".merge("), (r"\.dominating_vclock\(", ".clone_without("),
+        (r"\bSome\(([a-z_]+)\)", "None"), (r"\.unwrap_or_default\(\)", ".unwrap()"), (r"\.keys\(\)", ".values()"),
+        (r"\.is_some\(\)", ".is_none()"), (r"\.is_none\(\)", ".is_some()"), (r"\.is_ok\(\)", ".is_err()"), (r"\.any\(", ".all("), (r"\.all\(", ".any(")]
 OPS = [(r" < ", " <= "), (r" <= ", " < "), (r" > ", " >= "), (r" >= ", " > "), (r" == ", " != "), (r" != ", " == "),
        (r" && ", " || "), (r" \|\| ", " && "), (r" \+ 1\b", " + 2"), (r"saturating_add\(1\)", "saturating_add(2)"),
        (r"\bif !", "if "), (r"\.is_empty\(\)", ".is_empty() == false"), (r"\bSome\(Ordering::Less\)", "Some(Ordering::Greater)"),
@@ -47,13 +51,13 @@ def mutants_of(rel):
             code = line.split("//")[0]
             if not code.strip() or ln == lo and "fn " in code:
                 continue
-            for pat, rep in OPS:
+            for pat, rep in (OPS2 if os.environ.get('MUT_SET') == '2' else OPS):
                 for m in re.finditer(pat, code):
                     new = line[:m.start()] + rep + line[m.end():]
                     out.append({"item": item, "line": ln, "kind": "%s -> %s" % (pat.strip(), rep.strip()), "old": line.strip(), "new": new.strip(), "text": new})
             s = code.strip()
             # statement deletion: a plain call statement
-            if s.endswith(";") and not s.startswith(("let ", "return", "use ", "//", "}", "break", "continue")) and "=" not in s.split("(")[0] and s.count("(") >= 1:
+            if os.environ.get('MUT_SET') != '2' and s.endswith(";") and not s.startswith(("let ", "return", "use ", "//", "}", "break", "continue")) and "=" not in s.split("(")[0] and s.count("(") >= 1:
                 out.append({"item": item, "line": ln, "kind": "delete statement", "old": s, "new": "", "text": ""})
     return out
 
@@ -71,15 +75,17 @@ def main():
     sh(["git", "clone", "-q", "/repo", scratch])
     os.makedirs(os.path.join(ROOT, ".build", "mutants"), exist_ok=True)
     env = dict(os.environ)
-    env.update({"CARGO_NET_OFFLINE": "true", "VERIF_REPO": scratch, "CARGO_TARGET_DIR": "/tmp/mtarget_%s" % wid})
+    env.update({"CARGO_NET_OFFLINE": "true", "VERIF_REPO": scratch, "CARGO_TARGET_DIR": "/tmp/mtarget_%s" % wid, "VERIF_WD_SUFFIX": "_w%s" % wid})
     for rel in files:
-        outp = os.path.join(ROOT, ".build", "mutants", rel.replace("/", "_") + ".jsonl")
+        outp = os.path.join(ROOT, ".build", "mutants", rel.replace("/", "_") + os.environ.get("MUT_SET", "") + os.environ.get("MUT_LINES", "") + ".jsonl")
         done = set()
         if os.path.exists(outp):
             for l in open(outp):
                 d = json.loads(l); done.add((d["line"], d["kind"], d["old"]))
         orig = open("/repo/" + rel).read()
         ms = mutants_of(rel)
+        if os.environ.get("MUT_LINES"):
+            lo_, hi_ = map(int, os.environ["MUT_LINES"].split("-")); ms = [m for m in ms if lo_ <= m["line"] <= hi_]
         print("%s: %d mutants" % (rel, len(ms)), flush=True)
         for k, m in enumerate(ms):
             if (m["line"], m["kind"], m["old"]) in done:
